@@ -353,6 +353,13 @@ func typeNames(c *core.Ctx) {
 		got := map[string]types.Type{}
 		gotCarried := false
 		conflict := ""
+		// a value handed down to a helper as an argument (`from[A](TypeOf[A](), source.v)`): the helper's parameter
+		// stands for the argument, read with the type substitution of the frame that computed it
+		type bound struct {
+			v     ssa.Value
+			subst map[*types.TypeParam]types.Type
+		}
+		pvals := map[*ssa.Parameter]bound{}
 		var scan func(f *ssa.Function, subst map[*types.TypeParam]types.Type, depth int)
 		resolve := func(t types.Type, subst map[*types.TypeParam]types.Type) types.Type {
 			if tp, isTP := t.(*types.TypeParam); isTP {
@@ -379,10 +386,25 @@ func typeNames(c *core.Ctx) {
 						if mi, isMI := v.(*ssa.MakeInterface); isMI {
 							v = mi.X
 						}
+						vsubst := subst
+						for k := 0; k < 4; k++ {
+							pp, isP := v.(*ssa.Parameter)
+							if !isP {
+								break
+							}
+							b, has := pvals[pp]
+							if !has {
+								break
+							}
+							v, vsubst = b.v, b.subst
+							if mi, isMI := v.(*ssa.MakeInterface); isMI {
+								v = mi.X
+							}
+						}
 						if call, isCall := v.(*ssa.Call); isCall {
 							callee := call.Call.StaticCallee()
 							if callee != nil && callee.Origin() == typeOf && len(callee.TypeArgs()) == 1 {
-								t := resolve(callee.TypeArgs()[0], subst)
+								t := resolve(callee.TypeArgs()[0], vsubst)
 								if old, seen := got[fname]; seen && !types.Identical(old, t) {
 									conflict = fname
 								}
@@ -419,6 +441,11 @@ func typeNames(c *core.Ctx) {
 							ta := callee.TypeArgs()
 							for i := 0; i < tps.Len() && i < len(ta); i++ {
 								ns[tps.At(i)] = resolve(ta[i], subst)
+							}
+						}
+						for i, bp := range body.Params {
+							if i < len(x.Call.Args) {
+								pvals[bp] = bound{x.Call.Args[i], subst}
 							}
 						}
 						scan(body, ns, depth+1)
